@@ -121,6 +121,7 @@ func genC05(t *testing.T) {
 	if common.Batch == 0 {
 		nilElemsSequential("C05")
 	}
+	progsC05(t)
 	// Seq / ToSeq are plain functions: identity on every slice
 	for k := 0; k < common.Pick(200, 5000); k++ {
 		r := common.RngN("seq", uint64(k))
